@@ -472,17 +472,25 @@ class ProgGen:
         elif r < 0.6 and exec_ok:
             out.append(Node("stmt", self.rng.choice(["x0 = 1", "call ext()", "x0 = x0 + 2"])))
 
-    def var_decl(self, names=None, attrs=""):
+    def var_decl(self, names=None, attrs="", comment=True, semi_ok=True):
         rng = self.rng
         if names is None:
             names = [self.name("v") for _ in range(rng.choice([1, 1, 1, 2, 3]))]
+        else:
+            semi_ok = False
         ty = rng.choice(["integer", "real", "logical", "character(len=3)", "real, dimension(2)", "double precision"])
         decls = []
         for n in names:
             r = rng.random()
             decls.append(n + ("(3)" if r < 0.15 and "dimension" not in ty else " = 1" if r < 0.3 and ty == "integer" and not attrs else ""))
         text = f"{self.kw(ty)}{attrs} :: " + ", ".join(decls)
-        return Node("entity", text, names, self.maybe_comment(names))
+        node = Node("entity", text, names, self.maybe_comment(names) if comment else None)
+        if semi_ok and comment and rng.random() < 0.14:
+            # several statements on one source line, separated by `;`: the declarations in front of this one
+            # stand on the same line; a comment that follows the line (inline at its end, or on the next
+            # lines) follows the LAST statement, so it documents that one and none of the others
+            node.semi = [self.var_decl(None, attrs, comment=False, semi_ok=False) for _ in range(rng.choice([1, 1, 2]))]
+        return node
 
     def literal_decl(self):
         """A character declaration whose initial value is a concatenation of character literals.  The literals
@@ -539,9 +547,16 @@ class ProgGen:
         else:
             head = f"{prefix}{self.kw('subroutine')} {name}({', '.join(args)})" if args or rng.random() < 0.6 else f"{prefix}subroutine {name}"
             endk = "subroutine"
-        for a in args:
+        if len(args) == 2 and rng.random() < 0.25:
+            # both dummy arguments declared on one line: `integer :: a; integer :: b !! describes b`
             self.filler(body)
-            body.append(self.var_decl([a], rng.choice([", intent(in)", ", intent(inout)", ""])))
+            first = self.var_decl([args[0]], rng.choice([", intent(in)", ", intent(inout)", ""]), comment=False)
+            body.append(self.var_decl([args[1]], rng.choice([", intent(in)", ", intent(inout)", ""])))
+            body[-1].semi = [first]
+        else:
+            for a in args:
+                self.filler(body)
+                body.append(self.var_decl([a], rng.choice([", intent(in)", ", intent(inout)", ""])))
         if is_fn:
             body.append(self.var_decl([res]))
         for _ in range(rng.randint(0, 2)):
@@ -770,6 +785,10 @@ class ProgGen:
 STYLES = ["following", "following-inline", "pre", "alt", "prealt", "pre-mixed", "pre-segments", "following-segments",
           "pre-and-following"]
 FALLBACK = {"pre-mixed": "pre", "pre-segments": "pre", "following-segments": "following", "pre-and-following": "pre"}
+# a line of several `;`-separated statements: only documentation that FOLLOWS the line is generated (it follows the
+# last statement).  A preceding block in front of such a line is not generated: the documented rule ("documents what
+# it precedes") would name the first statement, the reader hands the block over after the whole line (see notes).
+SEMI_STYLES = ["following", "following-inline", "following-inline", "alt", "following-segments"]
 
 
 def assign_styles(rng, nodes, uniform=None):
@@ -777,6 +796,8 @@ def assign_styles(rng, nodes, uniform=None):
         if n.kind == "entity":
             if n.comment is not None:
                 n.style = uniform or rng.choice(STYLES)
+                if getattr(n, "semi", None) and n.style not in SEMI_STYLES:
+                    n.style = rng.choice(SEMI_STYLES)
                 if n.style in FALLBACK and len(n.comment.lines) < 2:
                     n.style = FALLBACK[n.style]  # nothing to mix in a one-line comment
                 if n.style == "following-inline" and n.comment.lines[0] == "":
@@ -1008,6 +1029,20 @@ def render(rng, nodes, marks, layout, files=None):
                             if pre_segs[-1][0] in ("P", "Ppure") else "")
                         layout.add("gap-before-statement")
                 stmt = lit_lines(rng, n, marks, ind, layout) if getattr(n, "lit", None) else [ind + n.text]
+                semi = getattr(n, "semi", None) or []
+                if semi:
+                    sep = rng.choice(["; ", "; ", ";", " ; "])
+                    stmt = [ind + sep.join([p.text for p in semi] + [n.text])]
+                    layout.add("several-statements-on-one-line")
+                    layout.add(f"several-statements-on-one-line:{len(semi) + 1}")
+                    if rng.random() < 0.12:
+                        stmt[0] += rng.choice([";", " ;"])
+                        layout.add("several-statements-on-one-line:trailing-semicolon")
+                    if c is not None:
+                        layout.add("several-statements-on-one-line:documented:" + st)
+                    for p in semi:
+                        for nm in p.names:
+                            expected.setdefault(nm, ([], {}, set(), []))[2].add("earlier-statement-of-a-line")
                 for l in stmt[:-1]:
                     put(l)
                 line = stmt[-1]
@@ -1020,6 +1055,8 @@ def render(rng, nodes, marks, layout, files=None):
                     line += rng.choice([" ", "  ", ""]) + "!" + doc + sp + t0
                     inline = True
                     layout.add("first-line-inline")
+                    if semi:
+                        layout.add("several-statements-on-one-line:inline-doc-at-the-end")
                 put(line)
                 state["no_plain_comment_next"] = False
                 if fol_segs:
@@ -1075,7 +1112,7 @@ def render(rng, nodes, marks, layout, files=None):
         for n in nodes:
             if n.kind == "entity":
                 if inside:
-                    for nm in n.names:
+                    for nm in n.names + [x for p in (getattr(n, "semi", None) or []) for x in p.names]:
                         if getattr(n, "public_component", False):
                             # FORD lists this very object among the components of every extending type too
                             expected[nm][2].add("public-component-of-extended-type")
